@@ -579,6 +579,9 @@ func c05witnesses() []c05witness {
 		{"json", "feature whose geometry is a collection with a null member", []byte(`{"type":"Feature","geometry":{"type":"GeometryCollection","geometries":[null,{"type":"Point","coordinates":[1,2]}]},"properties":null}`)},
 		{"json", "null into the helper types (66be8fd)", []byte(`null`)},
 		{"json", "coordinates null", []byte(`{"type":"LineString","coordinates":null}`)},
+		{"json", "null with leading white space into UnmarshalFeature (9f03c28)", []byte(" null")},
+		{"json", "null with trailing new line", []byte("null\n")},
+		{"json", "null with leading new line", []byte("\nnull")},
 		{"wkt", "keyword and a lone opening bracket", []byte("POINT(")},
 		{"wkt", "polygon with a lone bracket member", []byte("POLYGON((1 2,3 4),()")},
 		{"wkt", "collection with a lone bracket member", []byte("GEOMETRYCOLLECTION(POINT()")},
